@@ -412,6 +412,10 @@ CHECKS = {
             T('MC_RepLike', 'Respondent_plain.cfg', tiers=('thorough',)),
             C('rep', 'TestRep', 'TraceRep', n={'quick': 100, 'thorough': 1200}),
             C('respondent', 'TestRespondent', 'TraceRespondent', n={'quick': 100, 'thorough': 1200}),
+            C('repscn', 'TestRep', 'TraceRep', file='rep', n={'quick': 150, 'thorough': 4000},
+              scn=[('MC_RepScn', {'quick': ['RepScn_rep_mixed5.cfg'], 'thorough': ['RepScn_rep_mixed.cfg', 'RepScn_rep_plain0.cfg']})]),
+            C('respondentscn', 'TestRespondent', 'TraceRespondent', file='respondent', n={'quick': 150, 'thorough': 4000},
+              scn=[('MC_RepScn', {'quick': ['RepScn_respondent_mixed5.cfg'], 'thorough': ['RepScn_respondent_mixed.cfg', 'RepScn_respondent_plain0.cfg']})]),
             T('MC_RawSock', 'Raw_xrep.cfg'), T('MC_RawSock', 'Raw_xrespondent.cfg'),
             R('xrep', 'xrep'), R('xrespondent', 'xrespondent'),
             T('MC_Chain', 'Chain_twoway.cfg', workers=8), T('MC_Chain', 'Chain_ring.cfg', workers=8),
